@@ -1516,6 +1516,16 @@ class Engine(object):
                 elif isinstance(a, SOpaque) and isinstance(b, SOpaque) and a.ty.name == b.ty.name:
                     r = SBool(a.t == b.t)
                     return r if k == 'Is' else SBool(z3.Not(r.t))
+                elif a is b:
+                    r = True
+                elif (isinstance(a, SStr) or isinstance(b, SStr)) and all(isinstance(x, (SStr, str)) for x in (a, b)):
+                    # identity of strings: undetermined, but identical strings are equal
+                    ident = z3.FreshConst(z3.BoolSort(), 'is')
+                    ta = a.t if isinstance(a, SStr) else z3.StringVal(a)
+                    tb = b.t if isinstance(b, SStr) else z3.StringVal(b)
+                    self.assume(z3.Implies(ident, ta == tb))
+                    r = SBool(ident)
+                    return r if k == 'Is' else SBool(z3.Not(ident))
                 else:
                     raise Unsupported('identity comparison of symbolic values')
             else:
